@@ -26,6 +26,7 @@ package oj
 
 //@ pred EqButOff(a, b) = a.Ph == b.Ph && a.Kinds == b.Kinds && a.Key == b.Key && a.Lit == b.Lit && a.K == b.K
 //@     && a.Line == b.Line && a.LastNL == b.LastNL && a.Multi == b.Multi && a.ErrOff == b.ErrOff && a.Docs == b.Docs
+//@     && a.H == b.H && a.Bases == b.Bases
 
 //@ pred TopIs(q, kind) = q.Kinds.Len() > 0 && q.Kinds.Top() == kind
 
@@ -229,3 +230,140 @@ package oj
 //@     assert [C07 C04 start] wr.w == w && len(wr.buf) == 0 && 0 < wr.InitSize && 0 < wr.WriteLimit && WFuncs(wr)
 //@   at call colorJSON#0
 //@     assert [C07 C04 start] wr.w == w && len(wr.buf) == 0 && 0 < wr.InitSize && 0 < wr.WriteLimit
+
+// ===========================================================================
+// oj.Parser: the same simulation as the Validator plus the abstract view of the value stack (spec H / Bases).
+
+//@ unit jsonparser
+
+//@ pred IsKey(x) = typeis(x, gen.Key)
+//@ pred IsMap(x) = ismap(x) && anyref(x) != 0
+
+// A pending key lies on the stack: after a member name, while its value is being read.
+//@ pred KeyPushed(q) = q.Ph == spec.ObjColon || q.Ph == spec.ObjValue || q.Ph >= spec.NumNeg && q.Ph <= spec.Lit
+//@     || ((q.Ph == spec.Str || q.Ph == spec.StrEsc || q.Ph == spec.StrU) && !q.Key)
+
+// Levels: one entry of p.starts per open container; arrays record the stack index of their marker, objects -1; an
+// object's map sits at its base; a container opened as a member value sits two above its object (map, key).
+//@ pred PLevels(p, q) = len(p.starts) == q.Kinds.Len() && q.Bases.Len() == q.Kinds.Len() && len(p.stack) == q.H && 0 <= q.H
+//@     && (forall j: 0 <= j && j < len(p.starts) ==>
+//@            0 <= q.Bases[j] && q.Bases[j] < q.H
+//@         && ((q.Kinds[j] == spec.Arr && p.starts[j] == q.Bases[j]) || (q.Kinds[j] == spec.Obj && p.starts[j] == -1 && IsMap(p.stack[q.Bases[j]])))
+//@         && (j + 1 < len(p.starts) ==> q.Bases[j] < q.Bases[j+1]
+//@               && (q.Kinds[j] == spec.Obj ==> q.Bases[j+1] == q.Bases[j] + 2 && IsKey(p.stack[q.Bases[j]+1]))
+//@               && (q.Kinds[j] == spec.Arr ==> !IsKey(p.stack[q.Bases[j+1]-1]))))
+
+// Top of the stack by context.
+//@ pred PTop(p, q) = (q.Kinds.Len() == 0 ==> q.H == 0)
+//@     && (TopIs(q, spec.Obj) && KeyPushed(q) ==> q.H == q.Bases.Top() + 2 && IsKey(p.stack[q.H-1]))
+//@     && (TopIs(q, spec.Obj) && !KeyPushed(q) ==> q.H == q.Bases.Top() + 1)
+//@     && (TopIs(q, spec.Arr) ==> q.H >= q.Bases.Top() + 1 && !IsKey(p.stack[q.H-1]))
+
+//@ pred POwn(p, buf) = arrid(p.tmp) != arrid(buf) && arrid(p.runeBytes) != arrid(buf) && arrid(p.num.BigBuf) != arrid(buf)
+
+//@ pred PRel(p, q, n, base) = VMode(p, q) && PLevels(p, q) && PTop(p, q) && q.Off == n && q.Multi == !p.OnlyOne
+//@     && p.line == q.Line && p.noff == q.LastNL - base && 1 <= q.Line && q.Line <= n + 1 && -1 <= q.LastNL && q.LastNL < n
+//@     && gen.NumInv(p.num) && 0 <= p.mi && p.mi <= len(p.maps)
+//@     && (forall k: 0 <= k && k < len(p.maps) ==> p.maps[k] != nil)
+
+// add: a value completes. Under a pending key it is stored in the object below and the key is popped, otherwise pushed.
+//@ func (*Parser).add
+//@   let L = len(p.stack)
+//@   let S0 = snap(p.stack)
+//@   let topKey = 2 <= len(p.stack) && IsKey(p.stack[len(p.stack)-1])
+//@   requires [C06 add-map] topKey ==> IsMap(p.stack[L-2])
+//@   modifies p.stack, heap(p.stack)
+//@   ensures [C01 C02 C06 add] topKey ==> len(p.stack) == L - 1 && (forall i: 0 <= i && i < L - 1 ==> p.stack[i] == S0[i])
+//@   ensures [C01 C02 C06 add] !topKey ==> len(p.stack) == L + 1 && p.stack[L] == n && (forall i: 0 <= i && i < L ==> p.stack[i] == S0[i])
+
+//@ func (*Parser).parseBuffer
+//@   ghost S seq, base int, qi spec.JState
+//@   opt stream = buf, S, base
+//@   requires 0 <= base && base + len(buf) <= 1152921504606846976
+//@   requires PRel(p, spec.Run(qi, S, base), base, base)
+//@   requires [own] POwn(p, buf)
+//@   modifies everything
+//@   ensures [C01 C09 sim] result == nil && !last ==> PRel(p, spec.Run(qi, S, base+len(buf)), base+len(buf), base) && POwn(p, buf)
+//@   ensures [C01 accept] result == nil && last ==> spec.AcceptEOF(spec.Run(qi, S, base+len(buf)))
+//@   ensures [C01 C09 reject] result != nil ==> typeis(result, ParseError, ptr) && VErr(as(result, ParseError), as(result, ParseError).Column + p.noff, qi, S, base, len(buf), last)
+//@   loop 0
+//@     invariant [C01 C06 C09 bounds] 0 <= off && off <= len(buf) && depth == len(p.starts)
+//@     invariant [C01 C09 sim] PRel(p, spec.Run(qi, S, base+off), base+off, base)
+//@     invariant [C07 own] POwn(p, buf)
+//@     variant len(buf) - off
+//@     split spec.Run(qi, S, base+off).Ph in spec.DocStart, spec.DocEnd, spec.ArrFirst, spec.ArrNext, spec.ObjFirst, spec.ObjKey, spec.ObjColon,
+//@        spec.ObjValue, spec.After, spec.Str, spec.StrEsc, spec.StrU, spec.NumNeg, spec.NumZero, spec.NumInt, spec.NumDot, spec.NumFrac,
+//@        spec.NumE, spec.NumESign, spec.NumExp, spec.Lit
+//@     use spec.Run.unfold(qi, S, base+off)
+//@     use S[base+off] == 'n' || S[base+off] == 't' || S[base+off] == 'f' ==> spec.Run.unfold(qi, S, base+off+1, 4)
+//@   loop 1
+//@     let o1 = off + 1
+//@     let i0 = i
+//@     let b0 = b
+//@     let R1 = spec.Run(qi, S, base+off+1)
+//@     invariant $k >= 0 ==> i == $k && b == $s[$k]
+//@     invariant $k == -1 ==> i == i0 && b == b0
+//@     invariant $k >= 0 ==> spaceMap[b] == skipChar
+//@     invariant [C01 C09 sim] EqButOff(spec.Run(qi, S, base+o1+$k+1), R1) && spec.Run(qi, S, base+o1+$k+1).Off == base+o1+$k+1
+//@     invariant [C01 C09 sim] $k >= 0 ==> EqButOff(spec.Run(qi, S, base+o1+$k), R1) && spec.Run(qi, S, base+o1+$k).Off == base+o1+$k
+//@     use spec.Run.unfold(qi, S, base+o1+$k+1)
+//@   loop 2
+//@     let o1 = off + 1
+//@     let i0 = i
+//@     let b0 = b
+//@     let R1 = spec.Run(qi, S, base+off+1)
+//@     invariant $k >= 0 ==> i == $k && b == $s[$k]
+//@     invariant $k == -1 ==> i == i0 && b == b0
+//@     invariant $k >= 0 ==> stringMap[b] == strOk
+//@     invariant [C01 C09 sim] EqButOff(spec.Run(qi, S, base+o1+$k+1), R1) && spec.Run(qi, S, base+o1+$k+1).Off == base+o1+$k+1
+//@     invariant [C01 C09 sim] $k >= 0 ==> EqButOff(spec.Run(qi, S, base+o1+$k), R1) && spec.Run(qi, S, base+o1+$k).Off == base+o1+$k
+//@     use spec.Run.unfold(qi, S, base+o1+$k+1)
+//@   loop 3
+//@     let o1 = off + 1
+//@     let i0 = i
+//@     let b0 = b
+//@     let R1 = spec.Run(qi, S, base+off+1)
+//@     invariant $k >= 0 ==> i == $k && b == $s[$k]
+//@     invariant $k == -1 ==> i == i0 && b == b0
+//@     invariant $k >= 0 ==> stringMap[b] == strOk
+//@     invariant [C01 C09 sim] EqButOff(spec.Run(qi, S, base+o1+$k+1), R1) && spec.Run(qi, S, base+o1+$k+1).Off == base+o1+$k+1
+//@     invariant [C01 C09 sim] $k >= 0 ==> EqButOff(spec.Run(qi, S, base+o1+$k), R1) && spec.Run(qi, S, base+o1+$k).Off == base+o1+$k
+//@     use spec.Run.unfold(qi, S, base+o1+$k+1)
+//@   loop 4
+//@     invariant true
+//@   loop 5
+//@     let o1 = off + 1
+//@     let i0 = i
+//@     let b0 = b
+//@     let R1 = spec.Run(qi, S, base+off+1)
+//@     invariant $k >= 0 ==> i == $k && b == $s[$k]
+//@     invariant $k == -1 ==> i == i0 && b == b0
+//@     invariant $k >= 0 ==> digitMap[b] == numDigit
+//@     invariant [C02 inv] gen.NumInv(p.num) && len(p.num.BigBuf) == 0 && arrid(p.num.BigBuf) != arrid(buf)
+//@     invariant [C01 C09 sim] EqButOff(spec.Run(qi, S, base+o1+$k+1), R1) && spec.Run(qi, S, base+o1+$k+1).Off == base+o1+$k+1
+//@     invariant [C01 C09 sim] $k >= 0 ==> EqButOff(spec.Run(qi, S, base+o1+$k), R1) && spec.Run(qi, S, base+o1+$k).Off == base+o1+$k
+//@     use spec.Run.unfold(qi, S, base+o1+$k+1)
+//@   loop 6
+//@     let o1 = off + 1
+//@     let i0 = i
+//@     let b0 = b
+//@     let R1 = spec.Run(qi, S, base+off+1)
+//@     invariant $k >= 0 ==> i == $k && b == $s[$k]
+//@     invariant $k == -1 ==> i == i0 && b == b0
+//@     invariant $k >= 0 ==> digitMap[b] == numDigit
+//@     invariant [C02 inv] gen.NumInv(p.num) && len(p.num.BigBuf) == 0 && arrid(p.num.BigBuf) != arrid(buf)
+//@     invariant [C01 C09 sim] $k >= 0 ==> spec.Run(qi, S, base+o1+$k+1).Ph == spec.NumFrac
+//@     invariant [C01 C09 sim] $k >= 0 ==> EqButOff(spec.Run(qi, S, base+o1+$k+1), spec.Run(qi, S, base+o1+1)) && spec.Run(qi, S, base+o1+$k+1).Off == base+o1+$k+1
+//@     invariant [C01 C09 sim] $k >= 1 ==> EqButOff(spec.Run(qi, S, base+o1+$k), spec.Run(qi, S, base+o1+1)) && spec.Run(qi, S, base+o1+$k).Off == base+o1+$k
+//@     use spec.Run.unfold(qi, S, base+o1+$k+1)
+//@   loop 7
+//@     let o1 = off + 1
+//@     let i0 = i
+//@     let b0 = b
+//@     let R1 = spec.Run(qi, S, base+off+1)
+//@     invariant $k >= 0 ==> i == $k && b == $s[$k]
+//@     invariant $k == -1 ==> i == i0 && b == b0
+//@     invariant $k >= 0 ==> spaceMap[b] == skipChar
+//@     invariant [C01 C09 sim] EqButOff(spec.Run(qi, S, base+o1+$k+1), R1) && spec.Run(qi, S, base+o1+$k+1).Off == base+o1+$k+1
+//@     invariant [C01 C09 sim] $k >= 0 ==> EqButOff(spec.Run(qi, S, base+o1+$k), R1) && spec.Run(qi, S, base+o1+$k).Off == base+o1+$k
+//@     use spec.Run.unfold(qi, S, base+o1+$k+1)
